@@ -200,6 +200,16 @@ func (c *twistPoint) Double(a *twistPoint, pool *bnPool) {
 }
 
 func (c *twistPoint) Mul(a *twistPoint, scalar *big.Int, pool *bnPool) *twistPoint {
+	if scalar.Sign() < 0 {
+		// a·(-k) = (-a)·k; the loop below reads the bits of a non-negative scalar.
+		neg := newTwistPoint(pool)
+		neg.Negative(a, pool)
+		neg.t.Set(a.t)
+		c.Mul(neg, new(big.Int).Neg(scalar), pool)
+		neg.Put(pool)
+		return c
+	}
+
 	sum := newTwistPoint(pool)
 	sum.SetInfinity()
 	t := newTwistPoint(pool)
